@@ -220,7 +220,8 @@ def paged_contract(p: Paged):
     )
     # the loop under the invariant is found by what it iterates (self.<field>, possibly through enumerate / a local alias),
     # not by its position in the source
-    c_.loop_finder = lambda ex, fnode, node: spec_ if isinstance(node, ast.For) and iterates(fnode, node.iter, ("self", p.field)) else None
+    c_.loop_finder = lambda ex, fnode, node: with_counters(spec_, node) if isinstance(node, ast.For) and iterates(fnode, node.iter, ("self", p.field)) else None
+    c_.loop_obligations = [(k_, f"units.{cj}") for k_ in ("inv-init", "inv-preserve") for cj in ("count", "number", "text")]
     return c_
 
 
@@ -235,6 +236,88 @@ def _single_def(fnode, name):
         elif isinstance(n, (ast.AugAssign,)) and isinstance(n.target, ast.Name) and n.target.id == name:
             return None
     return defs[0] if len(defs) == 1 else None
+
+
+def counters_of(node):
+    """{name: step}: locals that the loop body increments by a constant exactly once per iteration (an unconditional top-level
+    `x += c` / `x = x + c`, no other store to x in the body, not the loop target)"""
+    out = {}
+    if not isinstance(node, (ast.For, ast.While)):
+        return out
+    stores = {}
+    for b in node.body:
+        for n in ast.walk(b):
+            if isinstance(n, ast.Name) and isinstance(n.ctx, ast.Store):
+                stores[n.id] = stores.get(n.id, 0) + 1
+    targets = {n.id for n in ast.walk(node.target) if isinstance(n, ast.Name)} if isinstance(node, ast.For) else set()
+    for b in node.body:
+        name, step = None, None
+        if isinstance(b, ast.AugAssign) and isinstance(b.target, ast.Name) and isinstance(b.op, (ast.Add, ast.Sub)) \
+                and isinstance(b.value, ast.Constant) and isinstance(b.value.value, int) and not isinstance(b.value.value, bool):
+            name, step = b.target.id, (b.value.value if isinstance(b.op, ast.Add) else -b.value.value)
+        elif isinstance(b, ast.Assign) and len(b.targets) == 1 and isinstance(b.targets[0], ast.Name) and isinstance(b.value, ast.BinOp) \
+                and isinstance(b.value.op, ast.Add):
+            x = b.targets[0].id
+            l, r = b.value.left, b.value.right
+            for u, v in ((l, r), (r, l)):
+                if isinstance(u, ast.Name) and u.id == x and isinstance(v, ast.Constant) and isinstance(v.value, int) and not isinstance(v.value, bool):
+                    name, step = x, v.value
+        if name is not None and stores.get(name) == 1 and name not in targets:
+            out[name] = step
+    return out
+
+
+def while_as_for(node):
+    """`while i < len(xs): <body with exactly one unconditional i += 1, no continue>`  ->  the equivalent
+    `for k in range(len(xs)): i = k; <body>` (valid when i == 0 at loop entry, which the executor checks), else None."""
+    import copy
+    if not isinstance(node, ast.While) or node.orelse:
+        return None
+    t = node.test
+    if not (isinstance(t, ast.Compare) and len(t.ops) == 1 and isinstance(t.ops[0], (ast.Lt, ast.NotEq)) and isinstance(t.left, ast.Name)
+            and isinstance(t.comparators[0], ast.Call) and isinstance(t.comparators[0].func, ast.Name) and t.comparators[0].func.id == "len"
+            and len(t.comparators[0].args) == 1):
+        return None
+    i = t.left.id
+    if counters_of(node).get(i) != 1:
+        return None
+    if any(isinstance(n, ast.Continue) for b in node.body for n in ast.walk(b)):
+        return None
+    k = ast.Name(f"{i}__pos", ast.Store())
+    loop = ast.For(k, ast.Call(ast.Name("range", ast.Load()), [copy.deepcopy(t.comparators[0])], []),
+                   [ast.Assign([ast.Name(i, ast.Store())], ast.Name(f"{i}__pos", ast.Load()))] + list(node.body), [])
+    ast.copy_location(loop, node)
+    ast.fix_missing_locations(loop)
+    loop._c03_index = i
+    return loop
+
+
+def with_counters(spec, node):
+    """LoopSpec whose invariant also states the induction variables of `node` (cached per node)"""
+    cs = counters_of(node)
+    if not cs:
+        return spec
+    cache = spec.__dict__.setdefault("_by_node", {})
+    if id(node) in cache:
+        return cache[id(node)]
+    base = spec.inv
+
+    def inv(lc, base=base, cs=cs):
+        r = base(lc)
+        extra = []
+        for name, step in cs.items():
+            cur, ent = lc.st.lookup(name), lc.entry.lookup(name)
+            if isinstance(cur, VInt) and isinstance(ent, VInt) and lc.i is not None:
+                extra.append((f"counter.{name}", ops.int_term(cur) == ops.int_term(ent) + step * lc.i))
+        if not extra:
+            return r
+        if isinstance(r, Conj):
+            out = type(r)(list(r) + extra, defs=r.defs) if hasattr(r, "defs") else Conj(list(r) + extra)
+            return out
+        return Conj([("base", r)] + extra)
+    sp = LoopSpec(inv=inv, label=spec.label)
+    cache[id(node)] = sp
+    return sp
 
 
 def iterates(fnode, expr, what, depth=0):
@@ -255,6 +338,8 @@ def iterates(fnode, expr, what, depth=0):
     if isinstance(expr, ast.Call) and isinstance(expr.func, ast.Name) and expr.func.id == "range" and len(expr.args) == 1 \
             and isinstance(expr.args[0], ast.Call) and isinstance(expr.args[0].func, ast.Name) and expr.args[0].func.id == "len" and expr.args[0].args:
         return iterates(fnode, expr.args[0].args[0], what, depth + 1)      # for i in range(len(xs)): the i-th iteration handles xs[i]
+    if isinstance(expr, (ast.ListComp, ast.GeneratorExp)) and len(expr.generators) == 1 and not expr.generators[0].ifs:
+        return iterates(fnode, expr.generators[0].iter, what, depth + 1)      # one element per source element, in order
     if isinstance(expr, ast.Name):
         d = _single_def(fnode, expr.id)
         return d is not None and iterates(fnode, d, what, depth + 1)
@@ -512,11 +597,22 @@ def build_slides_contract():
         if not isinstance(node, ast.For):
             return None
         if iterates(fnode, node.iter, ("name", "slides_texts")):
-            return outer_spec
+            return with_counters(outer_spec, node)
         outer = [n for n in ast.walk(fnode) if isinstance(n, ast.For) and iterates(fnode, n.iter, ("name", "slides_texts"))]
-        if len(outer) == 1 and any(x is node for x in ast.walk(outer[0])) and isinstance(outer[0].target, ast.Tuple) \
-                and isinstance(outer[0].target.elts[-1], ast.Name) and iterates(fnode, node.iter, ("name", outer[0].target.elts[-1].id)):
-            return inner_spec
+        if len(outer) == 1 and any(x is node for x in ast.walk(outer[0])) and node is not outer[0]:
+            # the inner loop walks the blocks of the current entry: the outer loop's element variable, or a local bound to
+            # slides_texts[<index>] in the outer body
+            cands = set()
+            if isinstance(outer[0].target, ast.Tuple) and isinstance(outer[0].target.elts[-1], ast.Name):
+                cands.add(outer[0].target.elts[-1].id)
+            elif isinstance(outer[0].target, ast.Name) and not (isinstance(outer[0].iter, ast.Call) and ast.unparse(outer[0].iter.func) == "range"):
+                cands.add(outer[0].target.id)
+            for b in outer[0].body:
+                if isinstance(b, ast.Assign) and len(b.targets) == 1 and isinstance(b.targets[0], ast.Name) and isinstance(b.value, ast.Subscript) \
+                        and isinstance(b.value.value, ast.Name) and b.value.value.id == "slides_texts":
+                    cands.add(b.targets[0].id)
+            if any(iterates(fnode, node.iter, ("name", c_)) for c_ in cands):
+                return with_counters(inner_spec, node)
         return None
 
     c_ = FnContract(
@@ -572,7 +668,7 @@ def distribute_images_contract():
     def numbered(c):
         o = c.st.obj(c.args["content"].ref)
         if o.kind != "obj" or not isinstance(o.data.get("slides"), VRef) or c.st.obj(o.data["slides"].ref).kind != "alist":
-            return z3.BoolVal(False)
+            raise X.Unsupported("content.slides is no longer an abstract list of slides: the clause cannot be stated over this state")
         return slides_numbered(c.st.obj(o.data["slides"].ref).data)
 
     def p_images():
@@ -700,26 +796,30 @@ def idref_of(e):
     return z3.If(ET.HAS_ATTR(e, _IDREF), ET.ATTR(e, _IDREF), z3.StringVal(""))
 
 
-# CNT_IDREF(e, tag, i): number of the first i `tag` children of e that carry a non-empty idref.  Declared uninterpreted;
-# its definition by primitive recursion is supplied as ground instances where an invariant is assumed (RecFunction made
-# trivial VCs time out here, as recorded in ENGINE.md for C10/C16).
-CNT_IDREF = fun("cnt_idref", ET.ELEM, S, I, I)
+def keep_idref(e, tag):
+    """keep predicate of the spine filter as a lambda array: the k-th `tag` child of e carries a non-empty idref"""
+    return z3.Lambda([K], z3.Length(idref_of(ET.FA_AT(e, tag, K))) > 0)
+
+
+def CNT_IDREF(e, tag, i):
+    """number of the first i `tag` children of e that carry a non-empty idref (generic counting function of c03_exec over the
+    keep predicate; its definition by primitive recursion is supplied as ground instances where an invariant is assumed)"""
+    return X.COUNT_TRUE(keep_idref(e, tag), i)
 
 
 def cnt_idref_def(e, tag, j):
-    return CNT_IDREF(e, tag, j) == z3.If(j <= 0, 0, CNT_IDREF(e, tag, j - 1) +
-                                         z3.If(idref_of(ET.FA_AT(e, tag, j - 1)) != z3.StringVal(""), 1, 0))
+    return X.count_true_def(keep_idref(e, tag), j)
 
 
 def spine_is_filtered(S_: VSeq, e, tag, upto, prefix=""):
     """S_ == [idref(x) for x in findall(e, tag)[:upto] if idref(x)]  (order preserving, complete), as
     count + position-of-every-kept-item + positions increasing."""
     k = z3.Int("k!sp")
-    kept = idref_of(ET.FA_AT(e, tag, k)) != z3.StringVal("")
+    kept = z3.Length(idref_of(ET.FA_AT(e, tag, k))) > 0
     rng = z3.And(k >= 0, k < upto)
     from contracts.c16_exec import ConjA
     if not isinstance(S_.elem(k), VStr):       # the list no longer holds strings only (e.g. rebuilt from an unknown source)
-        return Conj([(prefix + "count", z3.BoolVal(False)), (prefix + "order", z3.BoolVal(False)), (prefix + "items", z3.BoolVal(False))])
+        raise X.Unsupported("the spine list no longer holds strings only: the clause cannot be stated over this state")
     return ConjA([
         (prefix + "count", z3.And(S_.length == CNT_IDREF(e, tag, upto), S_.length >= 0)),
         (prefix + "order", z3.ForAll([k], z3.Implies(z3.And(rng, kept), z3.And(CNT_IDREF(e, tag, k) >= 0, CNT_IDREF(e, tag, k) < CNT_IDREF(e, tag, upto))),
@@ -764,13 +864,13 @@ def parse_spine_contract():
             return z3.And(out)
         return f
 
-    def inv_for(tag):
+    def inv_for(tag, recv="spine_elem"):
         def inv(lc):
             me = lc.entry.frames[0].env["self"]
             S_ = lc.st.obj(lc.st.obj(me.ref).data["_spine"].ref).data
-            e = lc.st.lookup("spine_elem")
+            e = lc.st.lookup(recv)
             if not isinstance(e, VExt):
-                return z3.BoolVal(False)
+                raise X.Unsupported("the spine element is not an abstract element here: the invariant cannot be stated over this state")
             return spine_is_filtered(S_, e.t, tag, lc.i)
         return inv
 
@@ -784,15 +884,24 @@ def parse_spine_contract():
                 out.append(cnt_idref_def(e, t, z3.IntVal(0)))
         return z3.And(out)
 
-    sp1, sp2 = LoopSpec(inv=inv_for(T_REF), label="itemrefs"), LoopSpec(inv=inv_for(T_REF_ANY), label="itemrefs-any-namespace")
+
+    by_node = {}
 
     def finder(ex, fnode, node):
         if not isinstance(node, ast.For):
             return None
-        if iterates(fnode, node.iter, ("text", "opf:itemref")):
-            return sp1
-        if iterates(fnode, node.iter, ("text", "{*}itemref")):
-            return sp2
+        for text, tag, label in (("opf:itemref", T_REF, "itemrefs"), ("{*}itemref", T_REF_ANY, "itemrefs-any-namespace")):
+            if iterates(fnode, node.iter, ("text", text)):
+                if id(node) not in by_node:
+                    # the element whose children are walked: the receiver of the findall call (whatever the local is called)
+                    call = node.iter
+                    while isinstance(call, ast.Call) and not (isinstance(call.func, ast.Attribute) and call.func.attr in ("findall", "iter", "iterfind")):
+                        call = call.args[0] if call.args else None
+                    if isinstance(call, ast.Name):
+                        call = _single_def(fnode, call.id)
+                    recv = call.func.value.id if isinstance(call, ast.Call) and isinstance(call.func, ast.Attribute) and isinstance(call.func.value, ast.Name) else "spine_elem"
+                    by_node[id(node)] = with_counters(LoopSpec(inv=inv_for(tag, recv), label=label), node)
+                return by_node[id(node)]
         return None
 
     from pyvc.verify import p_opt
@@ -809,6 +918,9 @@ def parse_spine_contract():
         note="reading order == idrefs of <spine>/<itemref> in document order; assumed: xml.etree findall returns direct children in document order",
     )
     c_.loop_finder = finder
+    c_.loop_optional = True      # without the loops (filter written as a comprehension / in a helper) the ensures follow from PY-COMP facts
+    c_.loop_obligations = [(k_, f"{lab}.{cj}") for lab in ("itemrefs", "itemrefs-any-namespace") for k_ in ("inv-init", "inv-preserve")
+                           for cj in ("count", "order", "items")]
     return c_
 
 
@@ -864,17 +976,125 @@ class C03Executor(ET.ETreeMixin, X.UnitsExecutor):
         st.assume(OVER)
         return r
 
+    filter_facts = True      # filtered comprehensions over symbolic sequences carry their order-preserving characterisation
+
     def symbolic_for(self, s, st, it):
-        spec = self.loop_spec(s)
-        if spec is None or spec.inv is None:
-            st.assume(OVER)
+        # a loop cut (with or without an invariant) replaces the loop-carried state by an arbitrary one: a VC refuted behind it shows
+        # that the INVARIANT is not inductive / too weak for this code, not that the code is wrong -> candidate only (`unknown`),
+        # the native replayer decides
+        st.assume(OVER)
+        self.tag_havoc(st, "state after a loop cut", s)
         return super().symbolic_for(s, st, it)
 
+
+    def comp_value(self, st, v, node):
+        # a unit object built by a comprehension is kept as its observation (real accessors executed), like a yielded unit
+        if isinstance(v, VRef) and st.obj(v.ref).kind == "obj" and st.obj(v.ref).cls:
+            mod = self.class_module(st.obj(v.ref).cls)
+            cls = st.obj(v.ref).cls
+            if mod is not None and self.find_method(mod, cls, "get_metadata") is not None and self.find_method(mod, cls, "get_text") is not None:
+                pr = self.project_unit(st, v, node)
+                if len(pr) == 1 and pr[0][0] is st:
+                    return AUnit(pr[0][1], pr[0][2])
+        return v
+
+    def b_map(self, st, args, kwargs, node):
+        """map(f, xs) over a symbolic sequence == (f(x) for x in xs) when f is pure and single-valued there"""
+        if len(args) == 2 and self.concrete_items(st, args[1]) is None and self.seq_view(st, args[1]) is not None:
+            f = args[0]
+            length, elem = self.seq_view(st, args[1])
+            snap = st.fork()
+
+            def at(k):
+                s = snap.fork()
+                self.sinks.append([])
+                try:
+                    r = self.call(s, f, [elem(k)], {}, node)
+                finally:
+                    sink = self.sinks.pop()
+                if sink or len(r) != 1 or len(r[0][0].pc) != len(snap.pc):
+                    raise X.Unsupported(f"{self.loc(node)} map() with a function that may raise / fork on the elements")
+                v = r[0][1]
+                return v if not isinstance(v, VRef) else self.comp_value(r[0][0], v, node)
+            sample = at(K)
+            if isinstance(sample, VRef):
+                raise X.Unsupported(f"{self.loc(node)} map() producing heap objects")
+            return [(st, VSeq(length, at, X.ekind_of_value(sample)))]
+        return self.havoc_call(st, "map", args, node)
+
     def s_While(self, s, st):
+        cache = self.__dict__.setdefault("_while_for", {})
+        loop = cache.get(id(s)) or while_as_for(s)
+        if loop is not None:
+            v = st.lookup(loop._c03_index)
+            if isinstance(v, VInt) and v.const() == 0:
+                cache[id(s)] = loop          # one synthetic node per while statement (loop specs are cached per node)
+                return self.s_For(loop, st)
         spec = self.loop_spec(s)
         if spec is None or (spec.inv is None and spec.unroll is None):
             st.assume(OVER)
         return super().s_While(s, st)
+
+    def s_For(self, s, st):
+        d = self._as_comprehension(s, st)
+        if d is not None:
+            return self.exec_stmt(d, st)
+        return super().s_For(s, st)
+
+    def _as_comprehension(self, s, st):
+        """`for x in xs: [t = e;]* [if c:] L.append(E)` over a symbolic sequence and without an invariant of its own is executed
+        as `L.extend([E for x in xs if c])` (locals t substituted): exact, and the comprehension model applies (PY-COMP)."""
+        import copy
+        if s.orelse or self.loop_spec(s) is not None or self._has_yield(s.body):
+            return None
+        body = list(s.body)
+        temps = {}
+        while body and isinstance(body[0], ast.Assign) and len(body[0].targets) == 1 and isinstance(body[0].targets[0], ast.Name) and len(body) > 1:
+            temps[body[0].targets[0].id] = body[0].value
+            body.pop(0)
+        guards = []
+        while len(body) > 1 and isinstance(body[0], ast.If) and not body[0].orelse and len(body[0].body) == 1 and isinstance(body[0].body[0], ast.Continue):
+            t = body[0].test            # `if skip: continue` in front of the append == the append under `if not skip`
+            guards.append(t.operand if isinstance(t, ast.UnaryOp) and isinstance(t.op, ast.Not) else ast.UnaryOp(ast.Not(), t))
+            body.pop(0)
+        if len(body) != 1:
+            return None
+        last, cond = body[0], None
+        if isinstance(last, ast.If) and not last.orelse and len(last.body) == 1:
+            cond, last = last.test, last.body[0]
+        if not (isinstance(last, ast.Expr) and isinstance(last.value, ast.Call) and isinstance(last.value.func, ast.Attribute)
+                and last.value.func.attr == "append" and len(last.value.args) == 1 and not last.value.keywords):
+            return None
+        L = last.value.func.value
+        if not isinstance(L, (ast.Name, ast.Attribute)):
+            return None
+        tnames = {n.id for n in ast.walk(s.target) if isinstance(n, ast.Name)}
+        used = {n.id for n in ast.walk(L) if isinstance(n, ast.Name)}
+        if used & (tnames | set(temps)):
+            return None
+        if guards:
+            cond = ast.BoolOp(ast.And(), guards + ([cond] if cond is not None else [])) if len(guards) + (cond is not None) > 1 else guards[0]
+        for e in list(temps.values()) + [last.value.args[0]] + ([cond] if cond is not None else []):
+            if any(isinstance(n, (ast.Yield, ast.YieldFrom, ast.NamedExpr, ast.Await, ast.Lambda)) for n in ast.walk(e)):
+                return None
+        probe = ast.ListComp(ast.Name("_", ast.Load()), [ast.comprehension(s.target, s.iter, [], 0)])
+        ast.copy_location(probe, s)
+        ast.fix_missing_locations(probe)
+        if self._probe_iter(probe, st) is None:
+            return None
+
+        class Sub(ast.NodeTransformer):
+            def visit_Name(self, node):
+                if isinstance(node.ctx, ast.Load) and node.id in temps:
+                    return self.visit(copy.deepcopy(temps[node.id]))
+                return node
+        E = Sub().visit(copy.deepcopy(last.value.args[0]))
+        ifs = [Sub().visit(copy.deepcopy(cond))] if cond is not None else []
+        comp = ast.ListComp(E, [ast.comprehension(copy.deepcopy(s.target), copy.deepcopy(s.iter), ifs, 0)])
+        call = ast.Expr(ast.Call(ast.Attribute(copy.deepcopy(L), "extend", ast.Load()), [comp], []))
+        ast.copy_location(call, s)
+        ast.fix_missing_locations(call)
+        return call
 
     def e_YieldFrom(self, n, st):
         v = n.value
@@ -1097,9 +1317,12 @@ def _has_contract_loop(ex, c, fnode):
     for n in ast.walk(fnode):
         if isinstance(n, (ast.For, ast.While)) and c.loop_finder(ex, fnode, n) is not None:
             return True
-        if isinstance(n, ast.YieldFrom) and isinstance(n.value, (ast.GeneratorExp, ast.ListComp)) and len(n.value.generators) == 1:
-            g = n.value.generators[0]
-            loop = ast.For(g.target, g.iter, [ast.Pass()], [])
+        if isinstance(n, ast.While):
+            w = while_as_for(n)
+            if w is not None and c.loop_finder(ex, fnode, w) is not None:
+                return True
+        if isinstance(n, ast.YieldFrom):
+            loop = ast.For(ast.Name("_", ast.Store()), n.value, [ast.Pass()], [])
             if c.loop_finder(ex, fnode, loop) is not None:
                 return True
     return False
@@ -1118,12 +1341,27 @@ def _make_safe(c):
             # helper, became a while loop, ...) is outside what this contract can follow: the FUNCTION is OUT-OF-SUBSET and the
             # native replayer decides
             fnode = cx.ex.module.functions.get(c.target.split("::")[1]) if cx.ex.contract is c else None
-            if fnode is not None and not _has_contract_loop(cx.ex, c, fnode):
+            if fnode is not None and not _has_contract_loop(cx.ex, c, fnode) and not getattr(c, "loop_optional", False):
                 from pyvc.ops import Unsupported
                 raise Unsupported("the loop over the source sequence, for which the invariant is stated, was not found in this function")
             return h0(cx) if h0 is not None else z3.BoolVal(True)
         hyps._c03_safe = True
         c.hyps = hyps
+    if getattr(c, "loop_obligations", None) and c.ensures:
+        l0, f0 = c.ensures[0]
+
+        def first(cx, f0=f0, c=c):
+            # The invariant obligations are proof steps of the loop form.  A version of the function that reaches the same
+            # ensures without such a loop (comprehension, `yield from <sequence>`, helper) does not generate them; their ids are
+            # kept (trivially true, marked) so that the obligation set does not depend on how the traversal is written.  The
+            # claims themselves (ensures) are discharged as always.
+            if cx.ex.contract is c:
+                for kind_, lab_ in c.loop_obligations:
+                    if f"{cx.ex.oid_prefix}/{kind_}#{lab_}" not in cx.ex.obls:
+                        cx.ex.add_vc(kind_, lab_, [], z3.BoolVal(True), note="not applicable: no invariant-cut loop on this path (ensures proved without it)")
+            return f0(cx)
+        first._c03_safe = True
+        c.ensures[0] = (l0, first)
     for spec in list(c.loops.values()):
         spec.inv = _safe(spec.inv)
     lf = getattr(c, "loop_finder", None)
